@@ -18,6 +18,9 @@
      AHold s            the delivery goroutine has called stream.Send for the head of the queue and the
                         plugin has not consumed it yet (observable: the send is parked in the stream);
                         no state changes - the send ends later as an ADeliver
+     AStop s            Source.Stop: the stop signal is passed to the plugin, which answers with the last
+                        position it PRODUCED; the answer goes to the caller and nothing of the ack path,
+                        the instance state or the persister is touched
      ATdBegin s         Teardown: tearingDown := true, Persister.Flush
      ATdWaited s        WaitPendingWritesContext returned (done or timed out), deferredAckClosed := true
      ATdCancel s        waitDeliveryDrain returned (drained or timed out), stopStream()
@@ -54,7 +57,8 @@ Inductive action :=
 | ATdWaited (s : conn)
 | ATdCancel (s : conn)
 | ATdDown (s : conn) (fast : bool)
-| AHold (s : conn).
+| AHold (s : conn)
+| AStop (s : conn).
 
 (* model parameters: the observable cfg plus the persister's bundle threshold *)
 Record mcfg := mkM { m_cfg : cfg; m_thr : nat }.
@@ -228,6 +232,7 @@ Definition step (m : mcfg) (y : sys) (a : action) : option sys :=
           then Some (mkSys (Pst y) (Src y) (emit [ESendHeld s n] (out y)))
           else None
       end
+  | AStop s => if (s <? nsrc c) && plug (Src y s) then Some y else None
   end.
 
 (* an action that is not enabled in the current state does not happen *)
